@@ -431,9 +431,13 @@ impl Searcher {
     }
 
     /// Updates position repetition (for repetition detection)
-    #[allow(dead_code)]
-    fn push_position(&mut self, board: &Board) {
+    pub fn push_position(&mut self, board: &Board) {
         self.repetition.push(self.zobrist.hash(board));
+    }
+
+    /// Forgets the recorded game history (a new position command replaces it)
+    pub fn clear_history(&mut self) {
+        self.repetition = RepetitionTable::new();
     }
 }
 
